@@ -51,6 +51,8 @@ def gen_viewlike(rng, tag, routes, has_static):
         v['ctx'] = rng.choice(CTX_NAMES)
         v['name'] = rng.choice(['', '', '', 'v', 'v', 'w1', 'w2'])
         v['perm'] = gen_perm(rng)
+        if rng.random() < 0.12:
+            v['csrf'] = True                          # require_csrf=True: csrf_view enabled next to the permission check
         if v['name'] not in WRAPPERS and rng.random() < 0.25:
             v['wrapper'] = 'w1'
         elif v['name'] == 'w1' and rng.random() < 0.25:
@@ -107,7 +109,13 @@ def gen_requests(rng, case, n):
     for _ in range(n):
         r = {'route': None, 'res': 0, 'vname': '', 'method': rng.choice(METHODS), 'xhr': rng.random() < 0.4,
              'truth': sorted(rng.sample(range(4), rng.choice([0, 1, 2, 3, 4])))}
+        if rng.random() < 0.35:
+            r['csrf'] = True                          # the request carries a valid CSRF token (cookie + header)
         t = rng.choice(views) if views and rng.random() < 0.8 else None
+        if rng.random() < 0.15:                       # render_view_to_response called directly, secure or not
+            r['op'], r['secure'] = 'render', rng.random() < 0.4
+            if t is not None and t['k'] == 'static':
+                t = None
         if t is not None and t['k'] == 'static':
             r['static'] = True
             out.append(r)
@@ -116,6 +124,8 @@ def gen_requests(rng, case, n):
             r['vname'] = t['name']
             r['res'] = rng.choice(RES_OF_CTX[t['ctx']])
             r['route'] = t['route'] if rng.random() < 0.9 else (rng.choice(routes) if routes and rng.random() < 0.5 else None)
+            if r.get('op') == 'render':
+                r['route'] = None
             m = t['preds'].get('request_method')
             if m is not None and rng.random() < 0.8:
                 r['method'] = rng.choice(m) if isinstance(m, list) else m
@@ -127,7 +137,7 @@ def gen_requests(rng, case, n):
         else:
             r['vname'] = rng.choice(VNAMES)
             r['res'] = rng.randrange(3)
-            r['route'] = rng.choice(routes) if routes and rng.random() < 0.3 else None
+            r['route'] = rng.choice(routes) if routes and rng.random() < 0.3 and r.get('op') != 'render' else None
         out.append(r)
     return out
 
@@ -255,7 +265,7 @@ def valid(case):
                     if set(s) != {'k', 'tag', 'perm'} or not (s['perm'] is None or s['perm'] in PERM_TOKENS):
                         return False
                 elif k in ('view', 'notfound', 'forbidden', 'excview'):
-                    if set(s) != set(base_view(0)):
+                    if set(s) - {'csrf'} != set(base_view(0)) or ('csrf' in s and (s['csrf'] is not True or k != 'view')):
                         return False
                     if s['kind'] not in KINDS or s['behave'] not in BEHAVES or not _is_bool(s['deco']) \
                             or not _is_bool(s['exc_only']) or not _is_bool(s['append_slash']):
@@ -320,7 +330,13 @@ def valid(case):
                 return False
         has_static = any(s['k'] == 'static' for s in st)
         for r in case['requests']:
-            if set(r) - {'static'} != {'route', 'res', 'vname', 'method', 'xhr', 'truth'}:
+            if set(r) - {'static', 'op', 'secure', 'csrf'} != {'route', 'res', 'vname', 'method', 'xhr', 'truth'}:
+                return False
+            if 'csrf' in r and r['csrf'] is not True:
+                return False
+            if ('op' in r) != ('secure' in r):
+                return False
+            if 'op' in r and (r['op'] != 'render' or not _is_bool(r['secure']) or r['route'] is not None or r.get('static')):
                 return False
             if r.get('static') and not has_static:
                 return False
@@ -437,6 +453,22 @@ def targeted_cases():
             st = [dict(P), _v(1, behave='boom'), _v(2, ctx='Boom', perm='edit'), {'k': 'static', 'tag': 7, 'perm': 'ZERO'}]
             out.append(_case(st, [['edit', [1, 4]]], [_rq(), _rq(static=True)], flavour=flavour))
             out.append(_case(copy.deepcopy(st), [], [_rq(), _rq(static=True)], flavour=flavour))
+    # render_view_to_response called directly, secure and permissive: single secured view with predicates, multiview
+    st = [dict(pol), _v(1, name='v', perm='edit', preds={'request_method': 'POST'}, deco=True), _v(2, name='v', perm='view'),
+          _v(3, name='w1', perm='edit', wrapper='w2'), _v(4, name='w2', perm='view'), _v(5, perm='view', preds={'xhr': True})]
+    for g in ([], [['view', [0, 0]]], [['edit', [0, 0]]]):
+        rqs = []
+        for sec in (True, False):
+            for vn in ('v', 'w1', '', 'zz'):
+                for m in ('GET', 'POST'):
+                    rqs.append(dict(_rq(vname=vn, method=m), op='render', secure=sec))
+        out.append(_case(copy.deepcopy(st), g, rqs))
+    # csrf_view enabled next to a permission: the permission is checked first, then the token
+    st = [dict(pol), _v(1, perm='view', csrf=True), _v(2, name='v', csrf=True, deco=True), dict(_v(3, k='forbidden'))]
+    rqs = [_rq(method='POST'), dict(_rq(method='POST'), csrf=True), _rq(), _rq(vname='v', method='POST'),
+           dict(_rq(vname='v', method='POST'), csrf=True)]
+    out.append(_case(copy.deepcopy(st), [], copy.deepcopy(rqs)))
+    out.append(_case(copy.deepcopy(st), [['view', [0, 0]]], copy.deepcopy(rqs)))
     # constructor arguments
     for falsy in (False, True):
         for dp in ('view', 'ZERO'):
